@@ -99,6 +99,7 @@ inductive ErrKind
   | moved      -- "host … does not belong to cluster … any more" (the host changed hands while the request was processed)
   | upstream   -- the review failed (transport error, or status.Error of a TokenReview)
   | both       -- "webhook subject access review returned both allow and deny response"
+  | other      -- any other refusal (never produced by the model; lets the judge be asked about a stricter implementation)
 deriving DecidableEq, Repr
 
 /-! ## token authentication -/
